@@ -214,6 +214,62 @@ impl<'a> Gen<'a> {
         out
     }
 
+    /// A value no element type of the catalogue accepts at this position (`None`: the type accepts
+    /// anything).
+    fn alien(ty: &Ty) -> Option<Doc> {
+        match ty {
+            Ty::P(t) | Ty::Bx(t) | Ty::Opt(t) => Self::alien(t),
+            Ty::Json | Ty::Phantom => None,
+            Ty::Sc(Scalar::Bool) => Some(Doc::Neg(-7)),
+            _ => Some(Doc::Bool(true)),
+        }
+    }
+
+    /// Rewrites every list (Vec / set) of a valid document into six elements whose outcomes are
+    /// fault, ok, fault, ok, ok, fault — a *sequence* of outcomes inside one container that the fault
+    /// bound alone does not reach (lists of the bases have two elements).
+    fn stripe(&self, ty: &Ty, d: &Doc) -> Doc {
+        match (ty, d) {
+            (Ty::P(t) | Ty::Bx(t), _) => self.stripe(t, d),
+            (Ty::Opt(t), d) if *d != Doc::Null => self.stripe(t, d),
+            (Ty::Vec(t) | Ty::HSet(t) | Ty::BSet(t), Doc::Seq(v)) => match (Self::alien(t), v.first()) {
+                (Some(bad), Some(first)) => {
+                    let good = self.stripe(t, first);
+                    Doc::Seq(vec![bad.clone(), good.clone(), bad.clone(), v.last().map(|l| self.stripe(t, l)).unwrap_or_else(|| good.clone()), good, bad])
+                }
+                _ => d.clone(),
+            },
+            (Ty::Arr(t, _), Doc::Seq(v)) => Doc::Seq(v.iter().map(|x| self.stripe(t, x)).collect()),
+            (Ty::Tup(ts), Doc::Seq(v)) => Doc::Seq(v.iter().zip(ts).map(|(x, t)| self.stripe(t, x)).collect()),
+            (Ty::Map { val, .. }, Doc::Obj(m)) => Doc::Obj(m.iter().map(|(k, x)| (k.clone(), self.stripe(val, x))).collect()),
+            (Ty::Item(i), _) => match (&self.cat.items[*i], d) {
+                (Item::Struct(s), Doc::Obj(m)) => Doc::Obj(
+                    m.iter()
+                        .map(|(k, x)| match s.fields.iter().find(|f| !f.skip && field_key(f, s.rename_all) == *k) {
+                            Some(f) => (k.clone(), self.stripe(&f.ty, x)),
+                            None => (k.clone(), x.clone()),
+                        })
+                        .collect(),
+                ),
+                (Item::Conv(c), _) => self.stripe(&c.via, d),
+                _ => d.clone(),
+            },
+            _ => d.clone(),
+        }
+    }
+
+    /// Striped payloads of the first dense base (see `stripe`).
+    pub fn striped(&self, ty: &Ty) -> Vec<Doc> {
+        let mut cx = BaseCtx { set: 0, ctr: 0, variant: 0, sparse: false };
+        let b = self.valid(ty, &mut cx, 0);
+        let s = self.stripe(ty, &b);
+        if s == b {
+            vec![]
+        } else {
+            vec![s]
+        }
+    }
+
     /// Base payloads: one per variant choice × two leaf-value sets × dense/sparse.
     pub fn bases(&self, ty: &Ty) -> Vec<Doc> {
         let nv = self.max_variants(ty, &mut vec![]);
@@ -556,6 +612,10 @@ impl<'a> Gen<'a> {
                         }
                     }
                     Some(tag) => {
+                        // a bare string that names a variant is still not an object
+                        for n in names.iter().take(3) {
+                            out.push(Edit { loc: loc.clone(), op: Op::Replace(Doc::Str(n.clone())) });
+                        }
                         let Doc::Obj(m) = doc else { return };
                         match m.iter().find(|(k, _)| k == tag) {
                             None => {
@@ -642,8 +702,9 @@ impl<'a> Gen<'a> {
                 break;
             }
         }
-        // saturated payloads (every leaf faulty at once) are states of their own, not expanded further
-        for b in self.saturated(ty) {
+        // saturated payloads (every leaf faulty at once) and striped payloads (every list holds the
+        // outcome sequence fault, ok, fault, ok, ok, fault) are states of their own, not expanded further
+        for b in self.saturated(ty).into_iter().chain(self.striped(ty)) {
             let c = b.canonical();
             if seen.insert(c.text()) {
                 states.push((c, 0));
